@@ -638,6 +638,9 @@ class RawVoltageBackend(object):
         self.obs_length = self.num_blocks * self.time_per_block
         self.total_obs_num_samples = self.num_blocks * self.samples_per_block * self.num_branches
         
+        # Work on a copy, so that neither the caller's dictionary nor the shared
+        # default argument is modified by this (or changes a later) recording
+        header_dict = dict(header_dict)
         if load_template:
             header_dict = self._header_add_from_template(header_dict)
         if self.input_header_dict is not None:
